@@ -13,6 +13,7 @@ from .engine_stmt import StmtMixin
 from .nplib import NumpyMixin
 from .engine_call import CallMixin
 from .prims import PrimMixin
+from .bomodel import BOMixin
 
 
 class Obligation:
@@ -49,7 +50,7 @@ class Frame:
         self.modifiable = None     # root heap id -> True | set(fields) : what the contract allows to be written
 
 
-class Engine(ExprMixin, StmtMixin, CallMixin, PrimMixin, NumpyMixin):
+class Engine(ExprMixin, StmtMixin, CallMixin, PrimMixin, NumpyMixin, BOMixin):
     def __init__(self, contracts, spec_asts, repo_root=None, timeout=10.0, verbose=False):
         self.idx = RepoIndex(repo_root)
         self.contracts = contracts
@@ -217,6 +218,8 @@ class Engine(ExprMixin, StmtMixin, CallMixin, PrimMixin, NumpyMixin):
             for s2, v in self.instantiate(st.fork(), ty[4:-1], name, fresh):
                 s2.path.append(name + "!=None")
                 yield s2, v
+        elif ty == "bo" or ty.startswith("bo:"):
+            yield st, self.fresh_bo(st, ty, name, fresh=fresh)
         elif ty == "sarr":
             # array of strings / bytes: elements are only compared, so they are modelled as ordered integers carrying the tag "str"
             r = self.fresh_arr(st, "int", name, fresh=fresh)
